@@ -156,7 +156,8 @@ func TestC06(t *testing.T) {
 	enum("enum-unary", gen.UnaryAlphabet(), focusLen)
 
 	dfGen := rapid.SampledFrom([]string{"", "", "dflt", "my field"})
-	pool := gen.FullAlphabet()
+	pool := append(gen.FullAlphabet(), gen.RawTerm(`x\\*`), gen.RawTerm(`a\\\\b`), gen.RawTerm(`b\*`), gen.RawTerm(`c\\?d`), gen.RawTerm(`\\`), gen.RawTerm(`a\*b*`), gen.RawTerm("NaN"), gen.RawTerm("0x1F"))
+	rawTerms := pool[len(gen.FullAlphabet()):]
 	st.Rapid(t, "printed-and-mutated", cfg.N(40000, 3000000), func(rt *rapid.T) {
 		tree := gen.GenTree(gen.ParseCfg).Draw(rt, "tree")
 		o := gen.Opts{Full: rapid.IntRange(0, 5).Draw(rt, "full") == 0}
@@ -169,8 +170,15 @@ func TestC06(t *testing.T) {
 			}
 		}
 		toks := gen.Print(tree, o).Toks
-		switch rapid.IntRange(0, 3).Draw(rt, "mutate") {
+		switch rapid.IntRange(0, 4).Draw(rt, "mutate") {
 		case 0:
+		case 4: // replace value terms by raw words whose meaning M1 decides (escapes + wildcards)
+			toks = append([]gen.Tok(nil), toks...)
+			for i := range toks {
+				if toks[i].Class == gen.TTerm && toks[i].Val != nil && toks[i].Val.K == gen.VWord && rapid.IntRange(0, 2).Draw(rt, "raw") == 0 {
+					toks[i] = rapid.SampledFrom(rawTerms).Draw(rt, "rawterm")
+				}
+			}
 		case 1:
 			toks = gen.NestInTermPosition(rt, toks)
 		default:
